@@ -2385,10 +2385,13 @@ class XonshParser(Parser):
         return None
 
     def env_atom(self) -> Any | None:
-        # env_atom: '$' NAME | '${' slices '}'
+        # env_atom: '$' NAME | '$' KEYWORD | '${' slices '}'
         mark = self._mark()
         _lnum, _col = self._tokenizer.peek().start
         if (self.expect("$")) and (a := self.name()):
+            return self.expand_env_name(a, **self.span(_lnum, _col))
+        self._reset(mark)
+        if (self.expect("$")) and (a := self.keyword()):
             return self.expand_env_name(a, **self.span(_lnum, _col))
         self._reset(mark)
         if (self.expect("${")) and (a := self.slices()) and (self.expect("}")):
@@ -3169,7 +3172,7 @@ class XonshParser(Parser):
 
     @memoize
     def target_with_star_atom(self) -> Any | None:
-        # target_with_star_atom: t_primary '.' NAME !t_lookahead | t_primary '[' slices ']' !t_lookahead | '$' NAME | '${' slices '}' | star_atom
+        # target_with_star_atom: t_primary '.' NAME !t_lookahead | t_primary '[' slices ']' !t_lookahead | '$' NAME | '$' KEYWORD | '${' slices '}' | star_atom
         mark = self._mark()
         _lnum, _col = self._tokenizer.peek().start
         if (
@@ -3190,6 +3193,9 @@ class XonshParser(Parser):
             return ast.Subscript(value=a, slice=b, ctx=Store, **self.span(_lnum, _col))
         self._reset(mark)
         if (self.expect("$")) and (a := self.name()):
+            return self.expand_env_name(a, ctx=Store, **self.span(_lnum, _col))
+        self._reset(mark)
+        if (self.expect("$")) and (a := self.keyword()):
             return self.expand_env_name(a, ctx=Store, **self.span(_lnum, _col))
         self._reset(mark)
         if (self.expect("${")) and (a := self.slices()) and (self.expect("}")):
